@@ -8,7 +8,8 @@ From TLV Require Import Base.Ops Model.Prox Proofs.ProxProofs Proofs.ProxProofsH
   Proofs.ProxProofsSmooth Proofs.ProxProofsFirm Proofs.ProxProofsNormSp Proofs.ProxProofsUni
   Base.Tensor Model.Constraints Proofs.ConstraintsProofsKeys Model.ProxDispatch Proofs.ProxProofsDispatch
   Proofs.ProxProofsMore Proofs.ProxProofsMatrix Proofs.ProxProofsRun Proofs.ProxRunTransfer
-  Base.RSum Proofs.ProxProofsSvt Proofs.ProxProofsSvtList Proofs.ProxProofsFirm2 Proofs.ProxProofsRunIdem Proofs.ProxProofsRunFirm.
+  Base.RSum Proofs.ProxProofsSvt Proofs.ProxProofsSvtList Proofs.ProxProofsFirm2 Proofs.ProxProofsRunIdem Proofs.ProxProofsRunFirm
+  Proofs.ConstraintsProofsUni.
 Import ListNotations.
 Open Scope R_scope.
 
@@ -347,6 +348,14 @@ Theorem C12_proximal_operator_ndim_raises_iff : forall F (Op : fops F) conv ndim
   selected_pop conv n_const order specs aux = Err \/ exists o, selected_pop conv n_const order specs aux = Ok o /\ ndim_ok o ndim = false.
 Proof. exact @proximal_operator_nd_raises_iff. Qed.
 Print Assumptions C12_proximal_operator_ndim_raises_iff.
+(* `order` as the Python int the caller wrote (selected_pop_z): mode `order` for 0 <= order < n_const, mode n_const + order for a negative
+   order down to -n_const, and the call raises (IndexError) outside [-n_const, n_const) *)
+Theorem C12_selected_order : forall F (conv : Q -> F) n (order : Z) specs aux,
+  ((0 <= order < Z.of_nat n)%Z -> selected_pop_z conv (Some n) order specs aux = selected_pop conv (Some n) (Z.to_nat order) specs aux) /\
+  ((- Z.of_nat n <= order < 0)%Z -> selected_pop_z conv (Some n) order specs aux = selected_pop conv (Some n) (Z.to_nat (order + Z.of_nat n)) specs aux) /\
+  ((order < - Z.of_nat n \/ Z.of_nat n <= order)%Z -> selected_pop_z conv (Some n) order specs aux = Err).
+Proof. exact @selected_pop_z_spec. Qed.
+Print Assumptions C12_selected_order.
 Theorem C12_proximal_operator_exec : forall n order specs aux X Y,
   proximal_operator Qops (fun q : Q => q) n order specs aux X = Ok Y ->
   proximal_operator Rops Q2R n order specs (Q2R aux) (map (map Q2R) X) = Ok (map (map Q2R) Y).
@@ -384,6 +393,12 @@ Theorem C12_prun_firmly_nonexpansive : forall o nr nc X X', (1 <= nr)%nat -> (1 
 Proof. exact prun_firmly_nonexpansive. Qed.
 Print Assumptions C12_prun_firmly_nonexpansive.
 
+Theorem C12_prun_l2_firmly_nonexpansive : forall t nr nc X X', 0 <= t -> (1 <= nr)%nat -> (1 <= nc)%nat -> rect nr nc X -> rect nr nc X' ->
+  firm_pair (concat (prun Rops (PL2 t (sqrt (sumsq Rops (concat X)))) X)) (concat (prun Rops (PL2 t (sqrt (sumsq Rops (concat X')))) X'))
+            (concat X) (concat X').
+Proof. exact prun_l2_firmly_nonexpansive. Qed.
+Print Assumptions C12_prun_l2_firmly_nonexpansive.
+
 (* ---- procrustes and svd_thresholding, from the exact contract of the SVD oracle (U: m x k with orthonormal columns, V: k x n with
    orthonormal rows, s >= 0, M = U diag(s) V entrywise; mfun A i j = entry (i, j) of the list-of-rows matrix A, frob = Frobenius inner
    product, fro2 = squared Frobenius distance, ocols r c A = "the c columns of the r x c matrix A are orthonormal").  No von Neumann
@@ -391,8 +406,7 @@ Print Assumptions C12_prun_firmly_nonexpansive.
    procrustes (full): the model's output U V maximises <Q, M> over ALL matrices Q with orthonormal columns or orthonormal rows, is a
    nearest such matrix to M, is itself such a matrix when V (resp. U) is a square orthogonal matrix (tall / wide input), and equals M when M
    already is such a matrix (idempotence: all singular values are then 1, whatever decomposition the oracle returns).
-   svd_thresholding (partial in one respect): the model's output minimises t |Z|_* + |Z - M|_F^2 / 2 over the matrices Z PRESENTED WITH a
-   singular value decomposition Z = U' diag(s') V' (|Z|_* = sum s'); that every real matrix has one is classical and not proved here.
+   svd_thresholding (full): exact minimiser over all matrices with the nuclear norm in dual form (C12_svt_optimal below).
    svd_thresholding is firmly non-expansive (full: |X1 - X2|_F^2 <= <X1 - X2, M1 - M2> for two inputs, each with the oracle's decomposition). *)
 Theorem C12_procrustes_max : forall (m n k : nat) (U : list (list R)) (s : list R) (V M : list (list R)),
   (1 <= k)%nat -> rect m k U -> length s = k -> rect k n V -> ocols m k (mfun U) -> ocols n k (fun j l => mfun V l j) ->
@@ -431,7 +445,31 @@ Theorem C12_svt_firmly_nonexpansive : forall m n t k1 U1 s1 V1 M1 k2 U2 s2 V2 M2
   <= frob m n (fun i j => X1 i j - X2 i j) (fun i j => mfun M1 i j - mfun M2 i j).
 Proof. exact svt_list_firmly_nonexpansive. Qed.
 Print Assumptions C12_svt_firmly_nonexpansive.
-Theorem C12_svt_optimal_partial : forall (m n k : nat) (U : list (list R)) (s : list R) (V M : list (list R)),
+(* svd_thresholding is the exact minimiser of t |Z|_nuc + |Z - M|_F^2 / 2 over ALL matrices Z.  The nuclear norm is taken in its dual form
+   (ProxProofsSvt.v): spec_le c W = the bilinear form of W is at most c on unit vectors (spectral norm <= c); nuc_le Z nu = <W, Z> <= nu for every
+   W with spec_le 1 W (nu is an upper bound of the nuclear norm); is_nuc Z nu = moreover attained (nu IS the nuclear norm).  No decomposition of
+   the competitor is assumed.  C12_svt_nuclear_norm: the value the objective uses for the output, sum soft_t(s), is its nuclear norm;
+   C12_nuclear_norm_of_svd: for a matrix given with a decomposition satisfying the contract, sum s' is its nuclear norm, hence
+   C12_svt_optimal_svd (the competitor's decomposition handed in as data, the status of every LAPACK answer here) is an instance. *)
+Theorem C12_svt_optimal : forall (m n k : nat) (U : list (list R)) (s : list R) (V M : list (list R)),
+  (1 <= k)%nat -> rect m k U -> length s = k -> rect k n V -> ocols m k (mfun U) -> ocols n k (fun j l => mfun V l j) ->
+  Forall (fun x => 0 <= x) s -> (forall i j, (i < m)%nat -> (j < n)%nat -> mfun M i j = compose k (mfun U) (vfun s) (mfun V) i j) ->
+  forall (t : R) (Z : nat -> nat -> R) (nu : R), 0 <= t -> nuc_le m n Z nu ->
+  t * lsum Rops (soft_thresholding Rops t s) + fro2 m n (mfun (svd_thresholding_with Rops U s V t)) (mfun M) / 2
+  <= t * nu + fro2 m n Z (mfun M) / 2.
+Proof. exact svt_list_optimal_full. Qed.
+Print Assumptions C12_svt_optimal.
+Theorem C12_svt_nuclear_norm : forall (m n k : nat) (U : list (list R)) (s : list R) (V : list (list R)),
+  (1 <= k)%nat -> rect m k U -> length s = k -> rect k n V -> ocols m k (mfun U) -> ocols n k (fun j l => mfun V l j) ->
+  Forall (fun x => 0 <= x) s -> forall t, 0 <= t ->
+  is_nuc m n (mfun (svd_thresholding_with Rops U s V t)) (lsum Rops (soft_thresholding Rops t s)).
+Proof. exact svt_list_output_nuc. Qed.
+Print Assumptions C12_svt_nuclear_norm.
+Theorem C12_nuclear_norm_of_svd : forall (m n k : nat) (U V : nat -> nat -> R), ocols m k U -> ocols n k (fun j l => V l j) ->
+  forall a : nat -> R, (forall l, (l < k)%nat -> 0 <= a l) -> is_nuc m n (compose k U a V) (rsum k a).
+Proof. exact nuc_compose. Qed.
+Print Assumptions C12_nuclear_norm_of_svd.
+Theorem C12_svt_optimal_svd : forall (m n k : nat) (U : list (list R)) (s : list R) (V M : list (list R)),
   (1 <= k)%nat -> rect m k U -> length s = k -> rect k n V -> ocols m k (mfun U) -> ocols n k (fun j l => mfun V l j) ->
   Forall (fun x => 0 <= x) s -> (forall i j, (i < m)%nat -> (j < n)%nat -> mfun M i j = compose k (mfun U) (vfun s) (mfun V) i j) ->
   forall (t : R) (k' : nat) (U' : nat -> nat -> R) (s' : nat -> R) (V' : nat -> nat -> R), 0 <= t ->
@@ -439,7 +477,7 @@ Theorem C12_svt_optimal_partial : forall (m n k : nat) (U : list (list R)) (s : 
   t * lsum Rops (soft_thresholding Rops t s) + fro2 m n (mfun (svd_thresholding_with Rops U s V t)) (mfun M) / 2
   <= t * rsum k' s' + fro2 m n (compose k' U' s' V') (mfun M) / 2.
 Proof. exact svt_list_optimal. Qed.
-Print Assumptions C12_svt_optimal_partial.
+Print Assumptions C12_svt_optimal_svd.
 
 (* ---- deliberately unfixed operators: refutation (exact rational witness on the executed instance) + what holds *)
 Theorem C12_l1ball_refuted : exists (p : Q) (v : list Q),
@@ -468,16 +506,18 @@ Print Assumptions C12_unimodal_refuted.
 
 (* what does hold for unimodality_prox: the column assembled at a FLAGGED peak candidate m (v_m >= both monotone fits at m) rises
    up to m and falls from m on; hence the coded single-column output is unimodal whenever the selected index is flagged
-   (it is not always: ties with the fill value select unflagged rows, e.g. [1,2] -> index 0) *)
+   (it is not always: ties with the fill value select unflagged rows, e.g. [1,2] -> index 0; then see C12_unimodal_feasible) *)
 Theorem C12_uni_assemble_unimodal : forall v m, (m < length v)%nat ->
   nth m (fst (uni_scores Rops v)) false = true -> unimodal_at m (uni_assemble Rops m v).
 Proof. exact uni_assemble_unimodal. Qed.
 Print Assumptions C12_uni_assemble_unimodal.
-Theorem C12_unimodal_feasible_partial : forall v, (uni_choice1 v < length v)%nat ->
-  nth (uni_choice1 v) (fst (uni_scores Rops v)) false = true ->
-  unimodalP (hd [] (unimodality_cols Rops [v])).
-Proof. exact unimodal_feasible_partial. Qed.
-Print Assumptions C12_unimodal_feasible_partial.
+(* unconditionally, for ANY number of columns: every output column of unimodality_prox is unimodal and as long as its input column (when the
+   selected index is not flagged it is index 0, and a column assembled there is unimodal too; proof by the builder of C11,
+   Proofs/ConstraintsProofsUni.v, over this model) *)
+Theorem C12_unimodal_feasible : forall cols : list (list R),
+  Forall unimodalP (unimodality_cols Rops cols) /\ map (@length R) (unimodality_cols Rops cols) = map (@length R) cols.
+Proof. exact unimodality_cols_feasible. Qed.
+Print Assumptions C12_unimodal_feasible.
 
 (* ---- non-vacuity: the hypotheses are satisfiable and the model computes *)
 Example C12_nonvacuous_soft :
@@ -532,7 +572,9 @@ Example C12_nonvacuous_proximal_operator :
   proximal_operator Qops (fun q : Q => q) (Some 2%nat) 0 [(KL1, ZScalar 1%Q); (KNonNeg, ZDict [(1%Z, 1%Q)])] 0%Q [[3; -1]]%Q = Err /\
   proximal_operator Qops (fun q : Q => q) None 0 [(KL1, ZScalar 1%Q)] 0%Q [[3; -1]]%Q = Ok [[3; -1]]%Q /\
   proximal_operator_nd Qops (fun q : Q => q) 3 (Some 1%nat) 0 [(KMonotone, ZScalar 1%Q)] 0%Q [[3; -1]]%Q = Err /\
-  proximal_operator_nd Qops (fun q : Q => q) 3 (Some 1%nat) 0 [(KNonNeg, ZScalar 1%Q)] 0%Q [[3; -1]]%Q = Ok [[3; 0]]%Q.
+  proximal_operator_nd Qops (fun q : Q => q) 3 (Some 1%nat) 0 [(KNonNeg, ZScalar 1%Q)] 0%Q [[3; -1]]%Q = Ok [[3; 0]]%Q /\
+  selected_pop_z (fun q : Q => q) (Some 3%nat) (-1)%Z [(KNonNeg, ZDict [(2%Z, 1%Q)])] 0%Q = Ok PNonneg /\
+  selected_pop_z (fun q : Q => q) (Some 3%nat) 3%Z [(KNonNeg, ZDict [(2%Z, 1%Q)])] 0%Q = Err.
 Proof. repeat split; vm_compute; reflexivity. Qed.
 (* the SVD-contract hypotheses of C12_procrustes_* / C12_svt_optimal_partial hold for a 2 x 2 instance (V a permutation matrix) *)
 Example C12_nonvacuous_svd_contract :
